@@ -17,7 +17,7 @@ CONFIG = dict(
           "parent package is not imported yet, computed operands (16 constant-call builders x 11 uses) and "
           "names that are str.format templates reaching a canary module; each input goes through every analysis entry point (parse, stacked parse, decompile, "
           "unparse, trace, safety check, likely-safe query, import/call summaries, CLI decompile / --trace / "
-          "--check-safety; thorough adds format identification on a zip wrapping the input) while an audit "
+          "--check-safety, and a sequence of ten repeated inspections of the same bytes in one process; thorough adds format identification on a zip wrapping the input) while an audit "
           "hook installed before fickling was imported, canary modules, a logging meta-path finder, a "
           "pre-imported canary with logged attribute access, the sink log, sys.modules / directory deltas "
           "and a sys.monitoring CALL tripwire on fickling's own frames watch.  A case is one distinct "
@@ -38,7 +38,7 @@ CONFIG = dict(
 )
 
 ENTRY_POINTS = ["parse", "stacked", "decompile", "unparse", "trace", "check_safety", "is_likely_safe",
-                "summaries", "cli_decompile", "cli_trace", "cli_check_safety"]
+                "summaries", "cli_decompile", "cli_trace", "cli_check_safety", "repeat"]
 
 CRASH_INPUTS = [
     # test/test_crashes.py
@@ -85,6 +85,21 @@ def inputs(ctx):
                     fr = rng.choice(gen.FRAMINGS) if tier == "quick" else None
                     for framing in ([fr] if fr else ["none", "proto2", "proto4frame"]):
                         yield f"voc-call-{r}-{c}-{fate}-{framing}", gen.frame(gen.apply_fate(call, fate), framing), True
+    # a well-formed dangerous prefix followed by something a symbolic interpreter cannot run (memo slot never
+    # written, pop from an empty stack, persistent id, batch opcode on a non-container, missing operand): the
+    # inspection raises half-way - what it leaves behind is what the next inspection of the same bytes meets
+    poison = [b"h\x07", b"g99\n", b"j\x00\x01\x00\x00", b"000", b"1", b"Ppid\n", b"K\x01Q", b"K\x01a", b"(K\x01e", b"K\x01K\x02s",
+              b"(K\x01K\x02u", b"\x90", b"b", b"\x81", b"\x92", b"R", b"\x93", b"\x82\x01", b"2\x85\x85R"]
+    for (m, n) in VOCAB:
+        picks = poison if tier == "thorough" else rng.sample(poison, 4)
+        for r in ("GLOBAL", "STACK_GLOBAL", "INST"):
+            call = gen.make_call(r, "INST" if r == "INST" else "REDUCE", m, n, [rng.choice(ARGS)])
+            if call is None:
+                continue
+            for sfx in picks:
+                yield f"poisoned-suffix-{r}", call + sfx + b".", True
+                if tier == "thorough":
+                    yield f"poisoned-suffix-{r}-proto4", gen.frame(call + sfx + b".", "proto4"), True
     # names that are str.format / %-templates: a report built by formatting text that already contains the
     # pickle's names resolves the replacement fields against live objects (attribute and item look-ups)
     roots = ["0", "trigger", "severity", "self", "node", "shortened", "message", "result", "context", "pickled",
@@ -192,6 +207,25 @@ def make_runner(mods, ctx, data, ep, paths):
         return lambda: cli_run(["fickling", "--trace", inp])
     if ep == "cli_check_safety":
         return lambda: cli_run(["fickling", "--check-safety", "--json-output", rep, "--print-results", inp])
+    if ep == "repeat":
+        # the same bytes inspected again and again in one process (each inspection may raise): whatever an earlier,
+        # possibly failed, inspection left behind must not make a later one execute anything
+        seq = ["check_safety", "check_safety", "is_likely_safe", "decompile", "summaries", "cli_check_safety",
+               "trace", "check_safety", "cli_decompile", "is_likely_safe"]
+        runners = [make_runner(mods, ctx, data, e, paths) for e in seq]
+
+        def go():
+            errs = []
+            for r in runners:
+                try:
+                    with contextlib.redirect_stdout(io.StringIO()), contextlib.redirect_stderr(io.StringIO()):
+                        r()
+                except RecursionError:
+                    errs.append("RecursionError")
+                except Exception as e:
+                    errs.append(type(e).__name__)
+            return errs
+        return go
     if ep == "identify_format":
         from fickling import polyglot
         return quiet(lambda: polyglot.identify_pytorch_file_format(inp))
@@ -228,7 +262,7 @@ def observe_case(ctx, mods, watch, label, data, ep, interesting, parent_tokens=f
     agg.hist("outcomes", outcome[0] + (":" + type(outcome[1]).__name__ if outcome[0] == "exc" else ""))
     for name, _s in obs["events"]:
         agg.hist("audit_event_kinds", name)
-    found = effects.classify(obs, declared_outputs=(rep, inp) if ep == "cli_check_safety" else ())
+    found = effects.classify(obs, declared_outputs=(rep, inp) if ep in ("cli_check_safety", "repeat") else ())
     # the harness wrote the input file itself before the marks; the report is the one declared output
     for k, what in found:
         agg.violation(f"{k}@{ep}", what, {"label": label, "hex": data.hex() if len(data) < 3000 else data[:3000].hex(),
